@@ -153,7 +153,7 @@ def _run_shape(ctx, fam: ClassInfo, k: int, blocks: List[int], stats) -> None:
     strat = Inst(fam)
     # ---------------------------------------------------------------- forward
     I = _fresh(P)
-    shifts = _call(I, P.find_method(fam, "shifts"), strat, [parent, children])
+    shifts = _as_tuple(ctx, _call(I, P.find_method(fam, "shifts"), strat, [parent, children]), f"{fam.name}.shifts")
     if not isinstance(shifts, Tup):
         raise AnalysisError(f"sizeflow: {fam.name}.shifts did not evaluate to a tuple for k={k}: {shifts!r}")
     shape = f"({fam.name}, forward, k={k}{alias})"
@@ -193,7 +193,7 @@ def _run_shape(ctx, fam: ClassInfo, k: int, blocks: List[int], stats) -> None:
         rchildren = rinst.attrs.get("_children")
         if not isinstance(rchildren, Tup) or len(rchildren.items) != k:
             raise AnalysisError(f"sizeflow: ReverseRule.__init__ children not understood for {shape}: {rchildren!r}")
-        rsh_t = _call(I, P.need_method("ReverseRule", "shifts", own=True), rinst, [])
+        rsh_t = _as_tuple(ctx, _call(I, P.need_method("ReverseRule", "shifts", own=True), rinst, []), "ReverseRule.shifts")
         if not isinstance(rsh_t, Tup):
             raise AnalysisError(f"sizeflow: ReverseRule.shifts did not evaluate to a tuple for {shape}: {rsh_t!r}")
         if len(rsh_t.items) != k:
@@ -215,16 +215,16 @@ def _run_shape(ctx, fam: ClassInfo, k: int, blocks: List[int], stats) -> None:
         for q in range(k):
             cobj = rchildren.items[q]
             sh = rsh_t.items[q]
-            if isinstance(sh, Join) and all(isinstance(v, Aff) for v in sh.vals):
-                cands = [v for v in sh.vals if any(a.startswith("s") for a in v.c)]
-                sh = cands[0] if cands else sh.vals[0]
-            if not isinstance(sh, Aff) or not isinstance(cobj, ClassObj):
+            alts = list(sh.vals) if isinstance(sh, Join) else [sh]
+            if not all(isinstance(v, Aff) for v in alts) or not isinstance(cobj, ClassObj):
                 raise AnalysisError(f"sizeflow: reverse position {q} not understood in {shape}")
-            plus = sorted(a for a, v in sh.c.items() if v > 0)
-            if q == 0:
-                good = cobj.name == "parent" and not plus
-            else:
-                good = cobj.name.startswith("child") and plus == [f"s{cobj.name[5:]}"] and cobj.name != f"child{idx}"
+            good = True
+            for v in alts:      # every way the shifts can be computed must describe the same class
+                plus = sorted(a for a, c_ in v.c.items() if c_ > 0)
+                if q == 0:
+                    good = good and cobj.name == "parent" and not plus
+                else:
+                    good = good and cobj.name.startswith("child") and plus == [f"s{cobj.name[5:]}"] and cobj.name != f"child{idx}"
             if not good:
                 ok_map = False
                 ctx.violation("S4", P.need_method("ReverseRule", "shifts", own=True).node,
@@ -247,6 +247,35 @@ def _run_shape(ctx, fam: ClassInfo, k: int, blocks: List[int], stats) -> None:
 
 
 # ------------------------------------------------------------- derived forms
+def _as_tuple(ctx, v, what: str):
+    """A Tup, or the position-wise join of the alternatives a function can return.  An
+    alternative the interpreter knows nothing about (a value read from a table kept across
+    calls, say) cannot be judged: it is noted as a shortfall -- which yields to violations
+    found elsewhere in the run -- and the known alternatives are analysed."""
+    if isinstance(v, Tup):
+        return v
+    if isinstance(v, Join):
+        tups = [x for x in v.vals if isinstance(x, Tup)]
+        rest = [x for x in v.vals if not isinstance(x, Tup)]
+        if tups and len({len(t.items) for t in tups}) == 1:
+            if rest:
+                ctx.shortfalls.append(f"sizeflow: {what} can also return {rest!r}, which the analysis cannot follow")
+            k = len(tups[0].items)
+            items = []
+            for q in range(k):
+                alts = []
+                for t in tups:
+                    if not any(_same_val(t.items[q], a) for a in alts):
+                        alts.append(t.items[q])
+                items.append(alts[0] if len(alts) == 1 else Join(alts))
+            return Tup(items)
+    return None
+
+
+def _same_val(a, b) -> bool:
+    return repr(a) == repr(b)
+
+
 def _plain_rule(P, strat, parent, children) -> Inst:
     r = Inst(P.need_class("Rule"))
     r.attrs.update({"comb_class": parent, "_children": children, "_strategy": strat, "_shifts": NONE,
